@@ -60,7 +60,7 @@ const unsigned char *verif_p0, *verif_p1;
 #define G_CODE verif_g7
 
 enum { OP_NONE, OP_MARK, OP_UNMARK, OP_TEST, OP_MARK_EXT, OP_UNMARK_EXT, OP_TESTCLEAR,
-       OP_SET_RANGE, OP_GET_RANGE, OP_RESIZE, OP_FFZ, OP_FFS };
+       OP_SET_RANGE, OP_GET_RANGE, OP_RESIZE, OP_FFZ, OP_FFS, OP_CLEAR };
 
 /* the error hook com_err() is variadic; DFCC loses the write set across a variadic call, so the call is routed to a
  * two-argument hook (the format arguments are irrelevant to the property) */
@@ -177,6 +177,11 @@ static errcode_t mb_get_range(ext2fs_generic_bitmap_64 bm, __u64 start, size_t n
 	log_call(bm, OP_GET_RANGE, start, num, out);
 	return IN.be_ret;
 }
+static void mb_clear(ext2fs_generic_bitmap_64 bm)
+{
+	log_call(bm, OP_CLEAR, 0, 0, 0);
+	MEMBER(bm) = 0;	/* the set becomes empty: in particular verif_k is no member */
+}
 static errcode_t mb_resize(ext2fs_generic_bitmap_64 bm, __u64 new_end, __u64 new_real_end)
 {
 	log_call(bm, OP_RESIZE, new_end, new_real_end, 0);
@@ -221,6 +226,7 @@ static const struct ext2_bitmap_ops MODEL_OPS = {
 	.mark_bmap_extent = mb_mark_ext, .unmark_bmap_extent = mb_unmark_ext,
 	.test_clear_bmap_extent = mb_test_clear_ext,
 	.set_bmap_range = mb_set_range, .get_bmap_range = mb_get_range,
+	.clear_bmap = mb_clear,
 	.find_first_zero = mb_ffz, .find_first_set = mb_ffs,
 };
 static const struct ext2_bitmap_ops MODEL_OPS_NOFF = {
@@ -230,6 +236,7 @@ static const struct ext2_bitmap_ops MODEL_OPS_NOFF = {
 	.mark_bmap_extent = mb_mark_ext, .unmark_bmap_extent = mb_unmark_ext,
 	.test_clear_bmap_extent = mb_test_clear_ext,
 	.set_bmap_range = mb_set_range, .get_bmap_range = mb_get_range,
+	.clear_bmap = mb_clear,
 	.find_first_zero = 0, .find_first_set = 0,
 };
 
